@@ -123,7 +123,8 @@ class C12(Prop):
                    "through the CPU budget and the hard watchdog"]
     deciding = {"soup": {"quick": 15000, "thorough": 150000}, "growth": {"quick": 1200, "thorough": 4000}, "codews": 200}
     soft_timeout = 12.0
-    hard_timeout = 40.0
+    hard_timeout = 240.0
+    soft_clock_cpu = True  # "hangs" is judged on CPU time burnt, so that a machine busy with other work cannot make a case hang
 
     def cases(self, tier, seed, shard, nshards):
         r = shard_rng(seed, self.id, shard)
@@ -165,7 +166,7 @@ class C12(Prop):
 
     def timeouts(self, case):
         if case.get("kind") in ("growth", "nest"):
-            return 240.0, 600.0
+            return 240.0, 1800.0
         return self.soft_timeout, self.hard_timeout
 
     def on_timeout(self, case, col, hard):
